@@ -68,7 +68,10 @@ pub fn fixpoint<T: Spec>(spec: &SpecTable, b: &[u8]) -> Result<Option<bool>, Str
 
 fn stage(i: &Input, c: &mut Case) -> Result<(), String> {
     let mut t = Tape::new(i.tape());
-    let m = gen_mixed(&mut t, MixOpts { weights: [3, 4, 4, 1, 0, 0], ..MixOpts::default() });
+    let mut mo = MixOpts { weights: [3, 4, 4, 1, 0, 0], ..MixOpts::default() };
+    // element sizes at the vint width boundaries (126..129, 16382..16384) must survive re-writing too
+    mo.tree.pay = crate::gen::PayOpts { big_left: 1, huge: false, max_small: 24 };
+    let m = gen_mixed(&mut t, mo);
     c.key(&m.bytes);
     let r = with_spec!(m.spec, T => fixpoint::<T>(m.spec.table(), &m.bytes));
     match r {
@@ -97,6 +100,8 @@ fn stage(i: &Input, c: &mut Case) -> Result<(), String> {
                 });
             }
             c.label_if(nt, "not_canonical");
+            c.label_if(crate::gen::any_node(&m.forest, &|n| matches!(crate::gen::content_len(n), 16382..=16384)), "payload_16K_boundary");
+            c.label_if(crate::gen::any_node(&m.forest, &|n| matches!(crate::gen::content_len(n), 126..=129)), "payload_127_boundary");
             c.sample_with(|| describe_mixed(&m));
             Ok(())
         }
@@ -107,9 +112,11 @@ fn stage(i: &Input, c: &mut Case) -> Result<(), String> {
 pub const STAGES: &[Stage] = &[Stage { name: "fixpoint", f: stage }];
 
 pub fn run(rc: &mut RunCtx) {
-    rc.run_pt(STAGES[0], rc.pick(60_000, 2_000_000), (96, 500));
+    rc.run_pt(STAGES[0], rc.pick(200_000, 4_000_000), (96, 500));
     rc.require_label("fixpoint", "mutated_accepted", 30_000);
     rc.require_label("fixpoint", "input_noncanonical", 100_000);
+    rc.require_label("fixpoint", "payload_16K_boundary", 20_000);
+    rc.require_label("fixpoint", "payload_127_boundary", 100_000);
     // acceptance rate of mutated streams
     if let Some(s) = rc.stats("fixpoint") {
         let acc = s.label("mutated_accepted");
